@@ -330,6 +330,7 @@ func runC01(r *core.Run) {
 		})
 
 	interleavedReadersFor(r, []string{"fasta"})
+	consumerMutatesRecords(r, []string{"fasta"})
 	bigFiles(r, "fasta", []int{0})
 
 	r.Bound("marked-offsets", "a long name or sequence (8300 bytes: every offset; 70000 bytes: offsets 0..3, 4090..4100, 65530..65540, last 3) with ONE byte of the format's vocabulary ('>', ';' quick; thorough also ' ', TAB, '@', '+', 0x00, 0xFF) at that offset; followed by a second record")
